@@ -192,17 +192,22 @@ impl ListType {
         match self {
             ret @ Self::Open(..) => Ok(Cow::Borrowed(ret)),
             Self::Mixed(types) => {
-                if types
-                    .iter()
-                    .as_ref()
-                    .windows(2)
-                    .all(|x| x[0].eq_complex(&x[1], comparison_flags))
-                {
-                    if let Some(ty) = types.first() {
-                        Ok(Cow::Owned(ListType::Open(Box::new(ty.clone()))))
-                    } else {
-                        bail!("cannot know the type of this list, for it is empty")
-                    }
+                if types.is_empty() {
+                    bail!("cannot know the type of this list, for it is empty")
+                }
+
+                // The element type of the open list is the first element type that says what it is: `nil`
+                // and `[]` are compatible with every optional / every list type, so as the element type
+                // they would accept anything.
+                let Some(ty) = types.iter().find(|ty| !ty.is_undetermined()) else {
+                    bail!("cannot know the type of this list, for none of its elements has a definite type")
+                };
+
+                // EVERY element must be usable as that type. Compatibility is not transitive (`int?`
+                // accepts `nil` and `nil` accepts `str?`, but `int?` does not accept `str?`), so comparing
+                // each element with its neighbour is not enough.
+                if types.iter().all(|x| ty.eq_complex(x, comparison_flags)) {
+                    Ok(Cow::Owned(ListType::Open(Box::new(ty.clone()))))
                 } else {
                     bail!("this is a mixed-type list")
                 }
